@@ -298,9 +298,10 @@ func (ff FeatureSlice) Insert(f Feature) FeatureSlice {
 		})
 	}
 
-	ff = append(ff, Feature{})
-	copy(ff[i+1:], ff[i:])
-	ff[i] = f
+	gg := make(FeatureSlice, len(ff)+1)
+	copy(gg, ff[:i])
+	gg[i] = f
+	copy(gg[i+1:], ff[i:])
 
-	return ff
+	return gg
 }
